@@ -947,3 +947,279 @@ Theorem C01_decode_file_forest :
        exists out : cdom, decode_file d p b = Ok out /\ reconstructs D p F out.
 Proof. exact decode_file_forest. Qed.
 
+
+(* ==== THE WHOLE-FILE THEOREMS (Proofs/BinRoundTrip.v): the layers above composed into statements about decode_file (encode_file ..).
+   For every database, encoder parameters, DOM with unique non-null referents and any non-overlapping root selection, every compressor
+   under the inflate law: (1) file_tree_roundtrip_names — the decoded DOM is the same forest (same_forest: one instance per written
+   instance, breadth-first construction order, root order and every sibling order preserved, class names and instance names equal),
+   provided the reader accepts the PROP chunks; (2) file_values_roundtrip — given the column law of each PROP chunk (any of the
+   col_roundtrip_* theorems), no further assumption on the reader: every decoded instance holds, for each column of its class, the
+   read-back of its own value or of the column default, up to the UniqueId rule; (3) unknown_props_roundtrip — closed statement on the
+   DOM for properties unknown to the database with values of the simple types: i_props = own values and defaults for missing
+   columns, Strings retyped BinaryString, Refs renamed to the new instances / null outside the written set.
+   Needed hypotheses shown necessary: duplicate_referent_breaks_forest, zero_referent_breaks_forest. *)
+From RbxVerif Require Import BinPostorder BinFinish BinStructure BinChunkFacts BinFraming BinRoundTrip.
+Open Scope N_scope.
+
+Theorem C01_tree_roundtrip :
+  forall (d : db) (ep : enc_params) (dom : cdom) (ts : list tree) (e : encoded) 
+         (p : dec_params) (st1 : dstate),
+       input_ok dom ts ->
+       encode_chunks d ep dom (List.map root ts) = Ok e ->
+       dp_lim p = None ->
+       run_chunks d p dstate0 (removelast (en_chunks e)) = Ok st1 ->
+       exists (st : ser_state) (out : cdom),
+         add_instances d ep dom (List.map root ts) = Ok st /\
+         decode_chunks d p (en_header e) (en_chunks e ++ [(CH_END, FILE_FOOTER)]) = Ok out /\
+         reconstructs (dinst_of (ds_insts st1)) p (List.map (WriterRows.ztree_of (fz st)) ts) out /\
+         registered dom st (ds_insts st1).
+Proof. exact tree_roundtrip. Qed.
+
+Theorem C01_tree_roundtrip_forest :
+  forall (d : db) (ep : enc_params) (dom : cdom) (ts : list tree) (e : encoded) 
+         (p : dec_params) (st1 : dstate),
+       input_ok dom ts ->
+       encode_chunks d ep dom (List.map root ts) = Ok e ->
+       dp_lim p = None ->
+       run_chunks d p dstate0 (removelast (en_chunks e)) = Ok st1 ->
+       exists (st : ser_state) (out : cdom),
+         add_instances d ep dom (List.map root ts) = Ok st /\
+         decode_chunks d p (en_header e) (en_chunks e ++ [(CH_END, FILE_FOOTER)]) = Ok out /\
+         same_forest dom ts (lbl st) out /\
+         (forall r : N,
+          In r (flat_map refs ts) ->
+          exists i' : inst,
+            find_inst out (lbl st r) = Some i' /\ i_ref i' = lbl st r /\ i_class i' = class_of dom r).
+Proof. exact tree_roundtrip_forest. Qed.
+
+Theorem C01_tree_roundtrip_names :
+  forall (d : db) (ep : enc_params) (dom : cdom) (ts : list tree) (e : encoded) 
+         (p : dec_params) (st : ser_state) (st1 : dstate),
+       input_ok dom ts ->
+       names_ok dom ->
+       encode_chunks d ep dom (List.map root ts) = Ok e ->
+       add_instances d ep dom (List.map root ts) = Ok st ->
+       dp_lim p = None ->
+       ser_names_ok st ->
+       name_cols_ok st ->
+       run_chunks d p dstate0 (removelast (en_chunks e)) = Ok st1 ->
+       exists out : cdom,
+         decode_chunks d p (en_header e) (en_chunks e ++ [(CH_END, FILE_FOOTER)]) = Ok out /\
+         same_forest dom ts (lbl st) out /\
+         (forall r : N,
+          In r (flat_map refs ts) ->
+          exists i' : inst,
+            find_inst out (lbl st r) = Some i' /\
+            i_ref i' = lbl st r /\ i_class i' = class_of dom r /\ i_name i' = i_name (src dom r)).
+Proof. exact tree_roundtrip_names. Qed.
+
+Theorem C01_file_tree_roundtrip :
+  forall (d : db) (ep : enc_params) (cmp : compression) (dom : cdom) (ts : list tree) 
+         (b : bytes) (p : dec_params),
+       input_ok dom ts ->
+       encode_file d ep cmp dom (List.map root ts) = Ok b ->
+       dp_lim p = None ->
+       (forall e : encoded,
+        encode_chunks d ep dom (List.map root ts) = Ok e ->
+        frame_ok p cmp e /\ (exists st1 : dstate, run_chunks d p dstate0 (removelast (en_chunks e)) = Ok st1)) ->
+       exists (st : ser_state) (out : cdom),
+         add_instances d ep dom (List.map root ts) = Ok st /\
+         decode_file d p b = Ok out /\
+         same_forest dom ts (lbl st) out /\
+         (forall r : N,
+          In r (flat_map refs ts) ->
+          exists i' : inst,
+            find_inst out (lbl st r) = Some i' /\ i_ref i' = lbl st r /\ i_class i' = class_of dom r).
+Proof. exact file_tree_roundtrip. Qed.
+
+Theorem C01_file_tree_roundtrip_names :
+  forall (d : db) (ep : enc_params) (cmp : compression) (dom : cdom) (ts : list tree) 
+         (b : bytes) (p : dec_params) (st : ser_state),
+       input_ok dom ts ->
+       names_ok dom ->
+       encode_file d ep cmp dom (List.map root ts) = Ok b ->
+       add_instances d ep dom (List.map root ts) = Ok st ->
+       dp_lim p = None ->
+       ser_names_ok st ->
+       name_cols_ok st ->
+       (forall e : encoded,
+        encode_chunks d ep dom (List.map root ts) = Ok e ->
+        frame_ok p cmp e /\ (exists st1 : dstate, run_chunks d p dstate0 (removelast (en_chunks e)) = Ok st1)) ->
+       exists out : cdom,
+         decode_file d p b = Ok out /\
+         same_forest dom ts (lbl st) out /\
+         (forall r : N,
+          In r (flat_map refs ts) ->
+          exists i' : inst,
+            find_inst out (lbl st r) = Some i' /\
+            i_ref i' = lbl st r /\ i_class i' = class_of dom r /\ i_name i' = i_name (src dom r)).
+Proof. exact file_tree_roundtrip_names. Qed.
+
+Theorem C01_enc_name_entry :
+  forall (d : db) (ep : enc_params) (dom : cdom) (roots : list N) (st : ser_state),
+       add_instances d ep dom roots = Ok st ->
+       forall (c : bytes) (ti : type_info), In (c, ti) (ss_types st) -> name_entry ti.
+Proof. exact enc_name_entry. Qed.
+
+Theorem C01_values_roundtrip_dom :
+  forall (d : db) (ep : enc_params) (dom : cdom) (ts : list tree) (e : encoded) 
+         (p : dec_params) (st : ser_state) (R : column -> col_read),
+       input_ok dom ts ->
+       names_ok dom ->
+       encode_chunks d ep dom (List.map root ts) = Ok e ->
+       add_instances d ep dom (List.map root ts) = Ok st ->
+       dp_lim p = None ->
+       sstr_ok st ->
+       ser_names_ok st ->
+       name_cols_ok st ->
+       (forall x : column,
+        In x (cols (ss_types st)) -> fst (snd x) <> NAME -> col_law d ep p dom st (stI_of st) x (R x)) ->
+       exists out : cdom,
+         decode_chunks d p (en_header e) (en_chunks e ++ [(CH_END, FILE_FOOTER)]) = Ok out /\
+         same_forest dom ts (lbl st) out /\
+         (forall (c : bytes) (ti : type_info) (k : nat) (r : N),
+          In (c, ti) (ss_types st) ->
+          nth_error (ti_instances ti) k = Some r ->
+          exists i' : inst,
+            find_inst out (lbl st r) = Some i' /\
+            i_ref i' = lbl st r /\
+            i_class i' = class_of dom r /\
+            i_name i' = i_name (src dom r) /\
+            uid_norm p (collect_props (read_props p R (c, ti) k)) (i_props i')).
+Proof. exact values_roundtrip_dom. Qed.
+
+Theorem C01_file_values_roundtrip :
+  forall (d : db) (ep : enc_params) (cmp : compression) (dom : cdom) (ts : list tree) 
+         (b : bytes) (p : dec_params) (st : ser_state) (R : column -> col_read),
+       input_ok dom ts ->
+       names_ok dom ->
+       encode_file d ep cmp dom (List.map root ts) = Ok b ->
+       add_instances d ep dom (List.map root ts) = Ok st ->
+       dp_lim p = None ->
+       (forall e : encoded, encode_chunks d ep dom (List.map root ts) = Ok e -> frame_ok p cmp e) ->
+       sstr_ok st ->
+       ser_names_ok st ->
+       name_cols_ok st ->
+       (forall x : column,
+        In x (cols (ss_types st)) -> fst (snd x) <> NAME -> col_law d ep p dom st (stI_of st) x (R x)) ->
+       exists out : cdom,
+         decode_file d p b = Ok out /\
+         same_forest dom ts (lbl st) out /\
+         (forall (c : bytes) (ti : type_info) (k : nat) (r : N),
+          In (c, ti) (ss_types st) ->
+          nth_error (ti_instances ti) k = Some r ->
+          exists i' : inst,
+            find_inst out (lbl st r) = Some i' /\
+            i_ref i' = lbl st r /\
+            i_class i' = class_of dom r /\
+            i_name i' = i_name (src dom r) /\
+            uid_norm p (collect_props (read_props p R (c, ti) k)) (i_props i')).
+Proof. exact file_values_roundtrip. Qed.
+
+Theorem C01_resolve_ref :
+  forall (d : db) (ep : enc_params) (p : dec_params) (dom : cdom) (ts : list tree) 
+         (st : ser_state) (ds : dstate) (r : N),
+       add_instances d ep dom (List.map root ts) = Ok st ->
+       NoDup (ss_relevant st) ->
+       same_skel (stI_of st) ds -> dc_resolve (prop_dctx p ds) (fz st r) = ref_new st r.
+Proof. exact resolve_ref. Qed.
+
+Theorem C01_simple_col_law :
+  forall (d : db) (ep : enc_params) (p : dec_params) (dom : cdom) (ts : list tree) 
+         (st : ser_state) (x : column),
+       add_instances d ep dom (List.map root ts) = Ok st ->
+       NoDup (ss_relevant st) ->
+       (Z.of_nat (Datatypes.length (ss_relevant st)) <= 2147483647)%Z ->
+       dp_lim p = None ->
+       find_desc_bin d (string_of_bytes (fst (fst x))) (string_of_bytes (pi_ser_name (snd (snd x)))) =
+       Ok None ->
+       simple_col (pi_type (snd (snd x))) (col_values ep dom x) ->
+       col_law d ep p dom st (stI_of st) x
+         (Some (pi_ser_name (snd (snd x)), None, List.map (norm_val st) (col_values ep dom x))).
+Proof. exact simple_col_law. Qed.
+
+Theorem C01_unknown_props_roundtrip :
+  forall (d : db) (ep : enc_params) (cmp : compression) (dom : cdom) (ts : list tree) 
+         (b : bytes) (p : dec_params) (st : ser_state),
+       input_ok dom ts ->
+       names_ok dom ->
+       unknown_props d dom ->
+       ep_order ep [] = [] ->
+       encode_file d ep cmp dom (List.map root ts) = Ok b ->
+       add_instances d ep dom (List.map root ts) = Ok st ->
+       dp_lim p = None ->
+       (forall e : encoded, encode_chunks d ep dom (List.map root ts) = Ok e -> frame_ok p cmp e) ->
+       sstr_ok st ->
+       (forall x : column,
+        In x (cols (ss_types st)) ->
+        fst (snd x) <> NAME -> simple_col (pi_type (snd (snd x))) (col_values ep dom x)) ->
+       exists out : cdom,
+         decode_file d p b = Ok out /\
+         same_forest dom ts (lbl st) out /\
+         (forall (c : bytes) (ti : type_info) (k : nat) (r : N),
+          In (c, ti) (ss_types st) ->
+          nth_error (ti_instances ti) k = Some r ->
+          exists i' : inst,
+            find_inst out (lbl st r) = Some i' /\
+            i_ref i' = lbl st r /\
+            i_class i' = class_of dom r /\
+            i_name i' = i_name (src dom r) /\ i_props i' = collect_props (source_props st ti (src dom r))).
+Proof. exact unknown_props_roundtrip. Qed.
+
+Theorem C01_SampleRoundTrip2_sample_unknown_roundtrip :
+  exists out : cdom,
+         decode_file db0 (dp0 None) sample_file = Ok out /\
+         same_forest sample_dom [sample_tree] (lbl SampleRoundTrip.sample_st) out /\
+         (forall (c : bytes) (ti : type_info) (k : nat) (r : N),
+          In (c, ti) (ss_types SampleRoundTrip.sample_st) ->
+          nth_error (ti_instances ti) k = Some r ->
+          exists i' : inst,
+            find_inst out (lbl SampleRoundTrip.sample_st r) = Some i' /\
+            i_ref i' = lbl SampleRoundTrip.sample_st r /\
+            i_class i' = class_of sample_dom r /\
+            i_name i' = i_name (src sample_dom r) /\
+            i_props i' = collect_props (source_props SampleRoundTrip.sample_st ti (src sample_dom r))).
+Proof. exact SampleRoundTrip2.sample_unknown_roundtrip. Qed.
+
+Theorem C01_SampleRoundTrip2_sample_described2 :
+  bfs_order [sample_tree] = [1; 2; 3] /\
+       List.map (lbl SampleRoundTrip.sample_st) (bfs_order [sample_tree]) = [2; 1; 3] /\
+       List.map
+         (fun r : N =>
+          collect_props
+            (source_props SampleRoundTrip.sample_st
+               match bfind (class_of sample_dom r) (ss_types SampleRoundTrip.sample_st) with
+               | Some ti => ti
+               | None =>
+                   {|
+                     ti_id := 0;
+                     ti_service := false;
+                     ti_instances := [];
+                     ti_props := [];
+                     ti_class := None;
+                     ti_visited := []
+                   |}
+               end (src sample_dom r))) [1; 2; 3] =
+       [[(bstr "R", VRef 0); (bstr "Q", VBool true); (bstr "P", VInt32 7)];
+        [(bstr "R", VRef 2); (bstr "Q", VBool false); (bstr "P", VInt32 (-3))];
+        [(bstr "S", VBinaryString (bstr "hi"))]].
+Proof. exact SampleRoundTrip2.sample_described2. Qed.
+
+Theorem C01_duplicate_referent_breaks_forest :
+  Forall (agrees (children_of dup_dom)) [Node 1 [Node 2 []]] /\
+       NoDup (flat_map refs [Node 1 [Node 2 []]]) /\
+       ~ In 0 (flat_map refs [Node 1 [Node 2 []]]) /\
+       (exists (b : bytes) (out : cdom),
+          encode_file db0 ep0 None dup_dom [1] = Ok b /\
+          decode_file db0 (dp0 None) b = Ok out /\ children_of out 0 = [1; 2] /\ children_of out 2 = []).
+Proof. exact duplicate_referent_breaks_forest. Qed.
+
+Theorem C01_zero_referent_breaks_forest :
+  NoDup (List.map i_ref zero_dom) /\
+       Forall (agrees (children_of zero_dom)) [Node 0 [Node 1 []]] /\
+       NoDup (flat_map refs [Node 0 [Node 1 []]]) /\
+       (exists (b : bytes) (out : cdom),
+          encode_file db0 ep0 None zero_dom [0] = Ok b /\
+          decode_file db0 (dp0 None) b = Ok out /\ children_of out 0 = [1; 2] /\ children_of out 2 = []).
+Proof. exact zero_referent_breaks_forest. Qed.
+
